@@ -1008,7 +1008,7 @@ def evaluate(case, meta, res):
                 _viol(viol, "oracle:buf_get_next_line:wrong-next-line:caller-slice", repr(want), "rc=%d %r (slice %d+%d of %d bytes)" % (rc, got, o0, z0, n))
         if cnt > n + 1:
             _viol(viol, "progress:buf_get_next_line:more-lines-than-bytes", "<= %d lines" % (n + 1), "%d" % cnt)
-        return "lines%d" % min(cnt, 3), viol, obsv
+        return ("caller-slice-" if meta.get("detail") == "caller-slice" else "") + "lines%d" % min(cnt, 3), viol, obsv
     return "ok", viol, obsv
 
 
